@@ -66,3 +66,14 @@ TEXT["C14"] = dict(
     level_note="trusts hashlib/OpenSSL, the oracle's SipHash (self-tested on published vectors at every "
                "run) and the shared message generator (splitmix64) being identical in C++ and python -- "
                "a mismatch there would raise alarms, not hide defects")
+TEXT["C09"] = dict(
+    engine="differential",
+    design_ref="DESIGN.md section 4, C09",
+    technique="runtime shadow-model monitor of every winner report over random tournament histories, under ASan+UBSan",
+    level_text="Random replace-the-winner histories (heavy ties, exhausted players, every k up to 17 and "
+               "around 32/64, real keys equal to the padding sentinel) are replayed on all eight loser "
+               "tree variants and the two size switches; each min_source() is checked against a linear "
+               "scan of a shadow array (liveness, minimality, stable tie-break). Exploration: held on "
+               "the histories generated.",
+    level_note="trusts the O(k) shadow scan; unguarded variants are driven only inside their documented "
+               "precondition")
